@@ -164,9 +164,9 @@ pub fn run_streaming(sc: &Value) -> Value {
         add("C15", format!("method {method}: writer present = {}", writer.is_some()));
     }
     let mut body = Some(Box::pin(resp.into_body()));
-    let cw = Arc::new(CountWaker(AtomicUsize::new(0)));
-    let waker = Waker::from(cw.clone());
-    let mut cx = Context::from_waker(&waker);
+    // three distinguishable wakers: a poll op may name the one it presents ("waker": 0..2)
+    let cws: Vec<Arc<CountWaker>> = (0..3).map(|_| Arc::new(CountWaker(AtomicUsize::new(0)))).collect();
+    let wakers: Vec<Waker> = cws.iter().map(|c| Waker::from(c.clone())).collect();
 
     let mut accepted: Vec<u8> = Vec::new();
     let mut delivered: Vec<u8> = Vec::new();
@@ -176,10 +176,14 @@ pub fn run_streaming(sc: &Value) -> Value {
     let mut body_dropped = false;
     let mut writer_gone = writer.is_none();
     let mut log: Vec<Value> = Vec::new();
+    // (lower, upper, bytes delivered before) sampled before every poll: C12 end-to-end oracle
+    let hints: std::cell::RefCell<Vec<(u64, Option<u64>, usize)>> = std::cell::RefCell::new(Vec::new());
     let mut parked = false;
+    let mut parked_waker = 0usize;
     let mut wakes_seen = 0usize;
 
-    let mut poll_once = |body: &mut Option<std::pin::Pin<Box<Body>>>,
+    let mut poll_once = |widx: usize,
+                         body: &mut Option<std::pin::Pin<Box<Body>>>,
                          delivered: &mut Vec<u8>,
                          frames: &mut Vec<usize>,
                          terminal: &mut Option<&'static str>,
@@ -188,6 +192,10 @@ pub fn run_streaming(sc: &Value) -> Value {
         let Some(b) = body.as_mut() else { return "nobody" };
         let hint = b.size_hint();
         let eos = b.is_end_stream();
+        if terminal.is_none() {
+            hints.borrow_mut().push((hint.lower(), hint.upper(), delivered.len()));
+        }
+        let mut cx = Context::from_waker(&wakers[widx.min(2)]);
         let r = catch_unwind(AssertUnwindSafe(|| b.as_mut().poll_frame(&mut cx)));
         let r = match r {
             Ok(r) => r,
@@ -236,8 +244,12 @@ pub fn run_streaming(sc: &Value) -> Value {
     };
 
     let ops = sc["ops"].as_array().cloned().unwrap_or_default();
+    // histories that need chunks to stay queued (inductive-step counterexamples) switch the
+    // "drain after every flush" oracle off; the end-to-end comparison still applies
+    let drain_on_flush = sc.get("drain_on_flush").and_then(|v| v.as_bool()).unwrap_or(true);
     for op in &ops {
         let name = op["op"].as_str().unwrap_or("");
+        let mut drain_after = false;
         match name {
             "write" | "write_all" => {
                 let data = bytes_of(&op["data"]).unwrap_or_default();
@@ -293,20 +305,7 @@ pub fn run_streaming(sc: &Value) -> Value {
                             violations.push(json!({"property": "C11", "what": "flush succeeded after abort"}));
                         }
                         log.push(json!({"op": "flush", "ok": true}));
-                        // C08: everything accepted so far is available without producer action
-                        if !ce_gzip && !body_dropped && body.is_some() {
-                            let mut guard = 0;
-                            loop {
-                                let r = poll_once(&mut body, &mut delivered, &mut frames, &mut terminal, &mut violations);
-                                guard += 1;
-                                if r != "data" || guard > 10000 {
-                                    break;
-                                }
-                            }
-                            if terminal.is_none() && delivered != accepted {
-                                violations.push(json!({"property": "C08", "what": format!("after flush {} bytes accepted but {} available", accepted.len(), delivered.len())}));
-                            }
-                        }
+                        drain_after = true;
                     }
                     Err(e) => {
                         if !aborted && !body_dropped {
@@ -318,11 +317,13 @@ pub fn run_streaming(sc: &Value) -> Value {
             }
             "poll" => {
                 let n = op.get("n").and_then(|v| v.as_u64()).unwrap_or(1);
+                let widx = op.get("waker").and_then(|v| v.as_u64()).unwrap_or(0) as usize;
                 for _ in 0..n {
-                    let before = cw.0.load(Ordering::SeqCst);
-                    let r = poll_once(&mut body, &mut delivered, &mut frames, &mut terminal, &mut violations);
+                    let before = cws[widx.min(2)].0.load(Ordering::SeqCst);
+                    let r = poll_once(widx, &mut body, &mut delivered, &mut frames, &mut terminal, &mut violations);
                     parked = r == "pending";
                     if parked {
+                        parked_waker = widx.min(2);
                         wakes_seen = before;
                     }
                     log.push(json!({"op": "poll", "res": r}));
@@ -349,17 +350,39 @@ pub fn run_streaming(sc: &Value) -> Value {
         }
         // C10 (sequential part): a parked consumer is woken by anything that changes what
         // it would see.
-        if parked && matches!(name, "flush" | "abort" | "drop_writer") && body.is_some() {
-            let now = cw.0.load(Ordering::SeqCst);
+        if parked && matches!(name, "write" | "write_all" | "flush" | "abort" | "drop_writer") && body.is_some() {
+            let now = cws[parked_waker].0.load(Ordering::SeqCst);
             let something = {
                 let b = body.as_ref().unwrap();
                 b.size_hint().lower() > 0 || aborted || writer_gone
             };
             if something && now == wakes_seen {
-                violations.push(json!({"property": "C10", "what": format!("consumer parked on an empty queue was not woken by {name}")}));
+                violations.push(json!({"property": "C10", "what": format!("consumer parked on an empty queue: the waker of its latest poll was not woken by {name}")}));
             }
             if now != wakes_seen {
                 parked = false;
+            }
+        }
+        if drain_after && drain_on_flush {
+            // C08: everything accepted so far is available without producer action
+            if !ce_gzip && !body_dropped && body.is_some() {
+                let mut guard = 0;
+                loop {
+                    let before = cws[0].0.load(Ordering::SeqCst);
+                    let r = poll_once(0, &mut body, &mut delivered, &mut frames, &mut terminal, &mut violations);
+                    guard += 1;
+                    if r == "pending" {
+                        parked = true;
+                        parked_waker = 0;
+                        wakes_seen = before;
+                    }
+                    if r != "data" || guard > 10000 {
+                        break;
+                    }
+                }
+                if terminal.is_none() && delivered != accepted {
+                    violations.push(json!({"property": "C08", "what": format!("after flush {} bytes accepted but {} available", accepted.len(), delivered.len())}));
+                }
             }
         }
     }
@@ -380,7 +403,7 @@ pub fn run_streaming(sc: &Value) -> Value {
         if body.is_none() {
             break;
         }
-        let r = poll_once(&mut body, &mut delivered, &mut frames, &mut terminal, &mut violations);
+        let r = poll_once(0, &mut body, &mut delivered, &mut frames, &mut terminal, &mut violations);
         if terminal.is_some() {
             after_terminal += 1;
             if after_terminal > 4 {
@@ -392,6 +415,21 @@ pub fn run_streaming(sc: &Value) -> Value {
                 violations.push(json!({"property": "C10", "what": "writer is gone but the body is still Pending"}));
             }
             break;
+        }
+    }
+    if body.is_some() && terminal == Some("end") {
+        for (lo, up, before) in hints.borrow().iter() {
+            let rest = (delivered.len() - before) as u64;
+            if *lo > rest {
+                violations.push(json!({"property": "C12", "what": format!("size hint lower bound {lo} but only {rest} more bytes were delivered before the clean end")}));
+                break;
+            }
+            if let Some(u) = up {
+                if *u < rest {
+                    violations.push(json!({"property": "C12", "what": format!("size hint upper bound {u} but {rest} more bytes were delivered")}));
+                    break;
+                }
+            }
         }
     }
     if body.is_some() {
